@@ -6,7 +6,8 @@ hint: lower = queued bytes, an upper bound only when the producer finished, noth
 on non-live states; (R3) is_end_stream is true only for a consumed one-shot,
 owed bytes == 0, or the reader's table of C11.R3; (R4) the fields those answers
 read are the accounted quantities (C01.R3/R5 owed bytes, C08.R3/R4 queued bytes,
-C20 terminal absorption); (R5) all Body constructors are crate-internal or the
+C20 terminal absorption; an error of the entity's stream, which does not end
+that stream, does not zero the owed bytes); (R5) all Body constructors are crate-internal or the
 public one-shot conversions.  Does not decide: entities that break their contract."""
 from . import chunker as CH
 from . import bodyrules as BR
@@ -20,7 +21,7 @@ def run(ctx):
     CH.size_hint_table(ctx, "C12.R2")
     CH.shared_initial_state(ctx, "C12.R4.init")
     CH.end_stream_table(ctx, "C12.R3.reader")
-    BR.exactlen_table(ctx, "C12.R4.exactlen")
+    BR.exactlen_table(ctx, "C12.R4.exactlen", eos_clause=True)
     MP.stream_accounting(ctx, "C12.R4.multipart")
     CH.reader_consume(ctx, "C12.R4.reader")
     CH.publish_rules(ctx, "C12.R4.writer", "C12.R4.nonempty", "C12.R4.flag")
